@@ -3,13 +3,16 @@ package indexer
 // Generation of harness chains: blocks of mixed Ethereum / Cosmos transactions with every outcome class the
 // indexer and the RPC distinguish (executed ok, executed with VM error, admitted but failed in the state
 // transition, admitted but exceeding the block gas limit, rejected by the ante handler, dropped before the ante
-// handler, undecodable bytes, Cosmos transactions), executed by the real application.
+// handler, undecodable bytes, well-formed Ethereum-lane wrappers around an undecodable payload, Cosmos transactions),
+// executed by the real application.
 
 import (
 	"math/big"
 
 	sdkmath "cosmossdk.io/math"
 	sdk "github.com/cosmos/cosmos-sdk/types"
+	codectypes "github.com/cosmos/cosmos-sdk/codec/types"
+	authtx "github.com/cosmos/cosmos-sdk/x/auth/tx"
 	banktypes "github.com/cosmos/cosmos-sdk/x/bank/types"
 	"github.com/ethereum/go-ethereum/common"
 	ethtypes "github.com/ethereum/go-ethereum/core/types"
@@ -18,6 +21,7 @@ import (
 	"github.com/EscanBE/evermint/v12/crypto/ethsecp256k1"
 	itu "github.com/EscanBE/evermint/v12/integration_test_util"
 	itutiltypes "github.com/EscanBE/evermint/v12/integration_test_util/types"
+	evmtypes "github.com/EscanBE/evermint/v12/x/evm/types"
 
 	. "verifharness/hx"
 )
@@ -50,11 +54,12 @@ const (
 	kCosmosOK
 	kCosmosFail
 	kGarbage
+	kEthLaneBad
 	nKinds
 )
 
 var kindNames = []string{"eth_transfer", "eth_dynfee_transfer", "eth_store_logs", "eth_revert", "eth_out_of_gas", "eth_deploy",
-	"eth_core_fail", "eth_intrinsic_gas_low", "eth_ante_nonce_high", "eth_ante_replay", "eth_ante_no_account", "cosmos_ok", "cosmos_fail", "garbage"}
+	"eth_core_fail", "eth_intrinsic_gas_low", "eth_ante_nonce_high", "eth_ante_replay", "eth_ante_no_account", "cosmos_ok", "cosmos_fail", "garbage", "eth_lane_bad"}
 
 type gen struct {
 	w        *world
@@ -180,6 +185,8 @@ func (g *gen) tx(k txKind) []byte {
 		raw, err := g.cosmosTx(a, msg)
 		require.NoError(g.w.t, err)
 		return raw
+	case kEthLaneBad:
+		return g.ethLaneBad(a, to, gp)
 	default:
 		n := 1 + g.r.Intn(40)
 		b := make([]byte, n)
@@ -188,6 +195,70 @@ func (g *gen) tx(k txKind) []byte {
 		}
 		return b
 	}
+}
+
+// ethLaneBad: a WELL-FORMED Ethereum-lane transaction (it decodes as an sdk.Tx; exactly one MsgEthereumTx; the only
+// extension option is ExtensionOptionsEthereumTx) whose embedded payload never passed any validation: MarshalledTx
+// that is no Ethereum transaction (random bytes, a truncated / padded / empty / huge one, an unknown typed envelope),
+// or a good payload under a `From` that is not its signer / not an address. CheckTx refuses such bytes, but a
+// proposer can put them into a block (NoOp ProcessProposal); FinalizeBlock answers with a failed result without
+// any event. MsgEthereumTx.AsTransaction() PANICS on the first group.
+func (g *gen) ethLaneBad(a *itutiltypes.TestAccount, to common.Address, gp *big.Int) []byte {
+	t := g.w.t
+	c := g.c
+	_, good, err := c.EthTxBytes(a, &ethtypes.LegacyTx{Nonce: g.nonce(a), GasPrice: gp, Gas: 21000, To: &to, Value: big.NewInt(1)})
+	require.NoError(t, err)
+	payload := append([]byte{}, good.MarshalledTx...)
+	from := good.From
+	rnd := func(n int) []byte {
+		b := make([]byte, n)
+		for i := range b {
+			b[i] = byte(g.r.U64())
+		}
+		return b
+	}
+	var sub string
+	switch g.r.Intn(9) {
+	case 0:
+		sub, payload = "payload_random_bytes", rnd(1+g.r.Intn(60))
+	case 1:
+		sub, payload = "payload_4_bytes", []byte{0xde, 0xad, 0xbe, 0xef}
+	case 2:
+		sub, payload = "payload_truncated", payload[:1+g.r.Intn(len(payload)-1)]
+	case 3:
+		sub, payload = "payload_empty", nil
+	case 4:
+		// an RLP string header announcing far more than follows, then 100-300 kB
+		sub, payload = "payload_huge", append([]byte{0xfa, 0xff, 0xff, 0xff}, rnd(100_000+g.r.Intn(200_000))...)
+	case 5:
+		sub, payload = "payload_trailing_bytes", append(payload, rnd(1+g.r.Intn(4))...)
+	case 6:
+		sub, payload = "payload_unknown_tx_type", append([]byte{byte(3 + g.r.Intn(0x7c))}, payload...)
+	case 7:
+		sub, from = "from_not_the_signer", sdk.AccAddress(to.Bytes()).String()
+		if to == a.GetEthAddress() {
+			from = sdk.AccAddress(g.c.S.WalletAccounts.Number(5).GetEthAddress().Bytes()).String()
+		}
+	default:
+		sub, from = "from_not_an_address", []string{"", "0x" + common.Bytes2Hex(a.GetEthAddress().Bytes()), "evm1qqqq"}[g.r.Intn(3)]
+	}
+	g.kinds["eth_lane_bad:"+sub]++
+	msg := &evmtypes.MsgEthereumTx{From: from, MarshalledTx: payload}
+	txb := c.S.EncodingConfig.TxConfig.NewTxBuilder()
+	require.NoError(t, txb.SetMsgs(msg))
+	opt, err := codectypes.NewAnyWithValue(&evmtypes.ExtensionOptionsEthereumTx{})
+	require.NoError(t, err)
+	txb.(authtx.ExtensionOptionsTxBuilder).SetExtensionOptions(opt)
+	txb.SetGasLimit(21000)
+	if g.r.Bool() {
+		txb.SetFeeAmount(sdk.NewCoins(sdk.NewCoin(c.Denom(), sdkmath.NewIntFromBigInt(new(big.Int).Mul(gp, big.NewInt(21000))))))
+	}
+	raw, err := c.S.EncodingConfig.TxConfig.TxEncoder()(txb.GetTx())
+	require.NoError(t, err)
+	dec, err := c.S.EncodingConfig.TxConfig.TxDecoder()(raw)
+	require.NoError(t, err, "the wrapper must decode: only the embedded payload / From is malformed")
+	require.Len(t, dec.GetMsgs(), 1)
+	return raw
 }
 
 // ghost returns a key whose account does not exist on chain (deterministic from the case's PRNG).
@@ -237,6 +308,8 @@ func (g *gen) block() *blk {
 		switch {
 		case onlyCosmos:
 			k = kCosmosOK + txKind(g.r.Intn(3))
+		case g.r.Chance(10):
+			k = kEthLaneBad
 		case g.r.Chance(45):
 			k = txKind(g.r.Intn(int(kDeploy) + 1)) // executed kinds
 		default:
